@@ -136,6 +136,9 @@ enum Workload {
     /// awaited) and awaited one after the other: a call's timeout is its own, counted from
     /// the moment it is driven, not from the moment it was built
     Prepared,
+    /// `Sequential` with the client timeout set to `Duration::MAX` ("practically unlimited",
+    /// what a configuration value ends up as): every request must still be answered
+    SequentialUnbounded,
 }
 
 /// The timeout of the patient sibling in `ConcurrentWarmMixed` (request id 2).
@@ -290,10 +293,13 @@ fn run_sim(sc: &Scenario) -> Outcome {
             if with_timeout {
                 client.set_timeout(TIMEOUT);
             }
+            if workload == Workload::SequentialUnbounded {
+                client.set_timeout(Duration::MAX);
+            }
             // concurrent requests go through clones of the configured client, the way the API
             // is meant to be used ("RpcClients are cheap to create")
             match workload {
-                Workload::Sequential | Workload::SequentialOwned => {
+                Workload::Sequential | Workload::SequentialOwned | Workload::SequentialUnbounded => {
                     let owned = workload == Workload::SequentialOwned;
                     for id in 1..=3u32 {
                         // the original handle, then clones of it
@@ -476,7 +482,7 @@ fn all_scenarios(tier: Tier) -> (Vec<Scenario>, usize, usize) {
     let max_faults = tier.pick(1, 2);
     let scripts = scripts(max_faults);
     let mut scenarios = Vec::new();
-    let mut workloads = vec![Workload::Sequential, Workload::ConcurrentFresh, Workload::ConcurrentWarm, Workload::Large, Workload::SequentialOwned, Workload::ConcurrentWarmOwned, Workload::ConcurrentWarmMixed, Workload::Prepared];
+    let mut workloads = vec![Workload::Sequential, Workload::ConcurrentFresh, Workload::ConcurrentWarm, Workload::Large, Workload::SequentialOwned, Workload::ConcurrentWarmOwned, Workload::ConcurrentWarmMixed, Workload::Prepared, Workload::SequentialUnbounded];
     for v in 0..LARGE_REPLY_VARIANTS.len() {
         workloads.push(Workload::LargeReplies(v as u8));
     }
@@ -490,6 +496,9 @@ fn all_scenarios(tier: Tier) -> (Vec<Scenario>, usize, usize) {
             for with_timeout in [true, false] {
                 if workload == Workload::ConcurrentWarmMixed && !with_timeout {
                     continue; // identical to ConcurrentWarm
+                }
+                if workload == Workload::SequentialUnbounded && with_timeout {
+                    continue; // the workload sets its own (unbounded) timeout
                 }
                 for script in &scripts {
                     if big && script.iter().filter(|f| **f != Fault::None).count() > 1 {
@@ -587,7 +596,7 @@ fn judge(sc: &Scenario, out: &Outcome, st: &mut Stats) {
         return;
     }
     let expected_calls = match sc.workload {
-        Workload::Sequential | Workload::SequentialOwned | Workload::Prepared => 3,
+        Workload::Sequential | Workload::SequentialOwned | Workload::Prepared | Workload::SequentialUnbounded => 3,
         Workload::ConcurrentFresh => 2,
         Workload::ConcurrentWarm | Workload::ConcurrentWarmOwned | Workload::ConcurrentWarmMixed => 4,
         Workload::Large => 1,
@@ -774,6 +783,7 @@ fn replay(case: &J) -> i32 {
         workload: match case.get("workload").and_then(|v| v.as_str()) {
             Some("ConcurrentFresh") => Workload::ConcurrentFresh,
             Some("Prepared") => Workload::Prepared,
+            Some("SequentialUnbounded") => Workload::SequentialUnbounded,
             Some("SequentialOwned") => Workload::SequentialOwned,
             Some("ConcurrentWarmOwned") => Workload::ConcurrentWarmOwned,
             Some("ConcurrentWarmMixed") => Workload::ConcurrentWarmMixed,
